@@ -369,7 +369,17 @@ func checkC39(c *Ctx, r *Report) {
 					return true
 				}))}
 				ok3 := checkGuarded(m, sb, call.(ssa.Instruction), pred).OK
-				if ok1 || ok2 || ok3 {
+				// or any arrangement of comparisons on the rune under which only [a-z0-9] get here
+				ok4 := false
+				if acc, okc := valueClassAt(rr, call.(ssa.Instruction)); okc {
+					ok4 = true
+					for c := 0; c <= 256; c++ {
+						if acc[c] && !((c >= 'a' && c <= 'z') || (c >= '0' && c <= '9')) {
+							ok4 = false
+						}
+					}
+				}
+				if ok1 || ok2 || ok3 || ok4 {
 					r.ok("C39.R2", "sanitizeBucketName copies only [a-z0-9] runes", m.Pos(call.Pos()), "")
 				} else {
 					r.viol("C39.R2", "sanitizeBucketName copies only [a-z0-9] runes", m.Pos(call.Pos()), "a rune outside [a-z] / [0-9] can be written to the bucket name")
